@@ -13,7 +13,7 @@ ASSUMPTIONS = ["tolerance 100 L^2 eps cond_inf(L) kappa_V (1+|q|^2/2lambda) rela
 
 def run(ctx):
     ss = S.generate(ctx, 12 if ctx.quick else 100, 3 if ctx.quick else 6, max_e=6 if ctx.quick else 8,
-                    max_loops=3 if ctx.quick else 5, routings_per_graph=2, scales=(1, 1, 1, Fraction(1, 2 ** 33), 2 ** 30))
+                    max_loops=3 if ctx.quick else 5, routings_per_graph=2, scales=(1, 1, 1, Fraction(1, 2 ** 33), 2 ** 30), decouple=0.3, special=("vacuum", "vacuum"))
     ss += S.generate(ctx, 4 if ctx.quick else 25, 2, max_e=10, max_loops=4, routings_per_graph=2,
                      names=["banana4", "ladder3x", "mercedes", "sunrise"])
     ss += S.generate(ctx, 2 if ctx.quick else 10, 2, max_e=6, max_loops=5, routings_per_graph=2, names=["banana6"])
@@ -79,6 +79,8 @@ def run(ctx):
                 exv = sum(ex["Linv"][l][m] * ex["u"][m][i] for m in range(nl))
                 # u itself is a cancelling sum: scale by the size of its terms
                 uabs = [sum(abs(x[e] * r["sig"][e][m] * r["shifts"][e][i]) for e in range(n)) for m in range(nl)]
-                scale = sum(abs(ex["Linv"][l][m]) * uabs[m] for m in range(nl)) + Fraction(1, 10 ** 300)
+                # (entries of the computed inverse are accurate relative to the LARGEST entry, not entry by entry)
+                linv_max = max(abs(t) for row in ex["Linv"] for t in row)
+                scale = linv_max * sum(uabs) + Fraction(1, 10 ** 300)
                 if abs(sh[l][i] - exv) > SC.tol_cond(nl, ex["cond"]) * scale:
                     ctx.violation(f"Metadata.shift[{l}][{i}] differs from (L^-1 u)", S.small_req(s), expected=float(exv), observed=float(sh[l][i])); break
